@@ -101,6 +101,11 @@ func TimeLE(s1, n1, s2, n2 int64) bool { return s1 < s2 || (s1 == s2 && n1 <= n2
 
 // ---- model introspection (symbolic runs only; natively they are inert) ----
 
+// FreshDraw reports whether every byte of b is a byte produced by the modelled CSPRNG that no earlier FreshDraw
+// call has seen (symbolic runs; natively true). RandDistinctAxiom switches the "draws never repeat" axiom off for
+// harnesses that only track provenance.
+func FreshDraw(b []byte) bool    { return true }
+func RandDistinctAxiom(on bool) {}
 func DrawCount() int                    { return 0 }
 func IsDraw(b []byte, k int) bool       { return true }
 func DrawIndexOf(b []byte) int          { return -1 }
